@@ -347,6 +347,7 @@ func genC18(t *rapid.T, cfg *core.Config) *core.Case {
 	}
 	g := core.NewGen(t, spec, rapid.IntRange(4, fuel).Draw(t, "fuel"), cfg.Excl)
 	g.Calls = false
+	g.NilBool = rapid.IntRange(0, 3).Draw(t, "nilbool") == 0
 	if cfg.Thorough() {
 		g.MaxClos = 5
 	}
